@@ -1849,8 +1849,9 @@ def make_constraints_history(rng, idx, chk):
     lists["other"] = [atoms[k][2][(chosen[k] + (1 if k == k_other else 0)) % len(atoms[k][2])] for k in keys]
     lists["less"] = [atoms[k][2][chosen[k]] for k in keys if k != k_less]
     b.kinds = ["%s: %s then none" % (family, atoms[k][0]) for k in keys if k in relevant]
-    b.kinds += ["%s: %s then the same with another parameter" % (family, atoms[k_other][0]),
-                "%s: %s then the list without it" % (family, atoms[k_less][0])]
+    if family != "cross":
+        b.kinds += ["%s: %s then the same with another parameter" % (family, atoms[k_other][0]),
+                    "%s: %s then the list without it" % (family, atoms[k_less][0])]
     b.give(p + ".vr", vr)
     b.give(p + ".nets", nets)
     b.give(p + ".machine", m)
